@@ -49,6 +49,10 @@ CONSTANTS
   MultNs = {multns}
   MultDs = {multds}
   MultMaxLen = {multmaxlen}
+  DegDs = {degds}
+  DegNs = {degns}
+  DegBigDs = {degbigds}
+  DegBigNs = {degbigns}
 {invariants}
 CHECK_DEADLOCK FALSE
 """
@@ -166,7 +170,7 @@ def concretise(st):
     """Spec input -> (weights as doubles, u0 as double, exact?) ; exact = double arithmetic of the code is
     exact / unambiguous on this input so that breakpoints may be replayed."""
     fam, Q, dc, a, k = st["fam"], st["Q"], st["dc"], st["a"], st["k"]
-    if fam == "exact":
+    if fam in ("exact", "degen"):
         dyadic = Q & (Q - 1) == 0
         return [ai / Q for ai in a], k / (2 * Q), dyadic
     g = Q // dc  # coarse step in units 1/Q
@@ -357,12 +361,15 @@ def main():
     quick = ck.tier == "quick"
     if quick:
         consts = dict(ns="{1, 2, 3, 4}", ds="{3, 4, 5, 6}", maxlen=3, tolns="{1, 2, 3, 4}", tolds="{4}", tolmaxlen=3,
-                      multns="{1, 2}", multds="{3, 4}", multmaxlen=3)
+                      multns="{1, 2}", multds="{3, 4}", multmaxlen=3,
+                      degds="{131072, 1048576, 16777216}", degns="{1, 2, 3, 4, 5, 6}", degbigds="{1048576}", degbigns="{64}")
     else:
         consts = dict(ns="{1, 2, 3, 4, 5, 6}", ds="{2, 3, 4, 5, 6, 7, 8}", maxlen=4, tolns="{1, 2, 3, 4, 5, 6}",
-                      tolds="{2, 4, 8}", tolmaxlen=3, multns="{1, 2, 3}", multds="{3, 4, 5}", multmaxlen=3)
+                      tolds="{2, 4, 8}", tolmaxlen=3, multns="{1, 2, 3}", multds="{3, 4, 5}", multmaxlen=3,
+                      degds="{131072, 1048576, 16777216}", degns="{1, 2, 3, 4, 5, 6}", degbigds="{131072, 1048576}",
+                      degbigns="{17, 64}")
     small = dict(ns="{1, 2}", ds="{2, 3}", maxlen=2, tolns="{1, 2}", tolds="{2}", tolmaxlen=2,
-                 multns="{1}", multds="{2}", multmaxlen=2)
+                 multns="{1}", multds="{2}", multmaxlen=2, degds="{}", degns="{1}", degbigds="{}", degbigns="{1}")
 
     rng = np.random.RandomState(ck.seed + 606)
 
@@ -425,6 +432,9 @@ def main():
         matched_pool = []
         script_unused = 0
         dyadic_sys = []
+        groups = {}  # (fam, n, a, Q) -> {k: outcome of the code (None if it raised)}
+        group_w = {}
+        degen_replayed = 0
         sampled = set()
         for st in iter_done_states(res.dump_path):
             if st["fam"] == "mult":
@@ -443,6 +453,14 @@ def main():
                     assert all(Fraction(x) == Fraction(ai, Q) for x, ai in zip(w, a)) and Fraction(u0) == Fraction(k, 2 * Q)
             out, err, script = call_systematic(np, tools, n, w, u0)
             replayed += 1
+            degen_replayed += st["fam"] == "degen"
+            if st["fam"] != "exact" or exact:  # every offset of the family's cover is replayed for these
+                gk = (st["fam"], n, tuple(a), Q)
+                groups.setdefault(gk, {})[k] = None if err else out
+                if gk not in group_w or (not err and out != tuple(st["idx"]) and "witness" not in group_w[gk]):
+                    group_w.setdefault(gk, {"w": w})
+                    if not err and out != tuple(st["idx"]):
+                        group_w[gk]["witness"] = dict(k=k, u0=u0, got=list(out), want=list(st["idx"]))
             if script.calls == 0:
                 script_unused += 1
             want_out, want_err = tuple(st["idx"]), st["err"]
@@ -464,7 +482,8 @@ def main():
                 to_judge.append((case, info))
             cat = ("zero-first-weight-offset0" if a[0] == 0 and k == 0 else
                    "sum-below-one-offset-just-below-one" if st["fam"] == "tol" and sum(a) < Q and k == 2 * Q - 2 else
-                   "trailing-zero-midpoint" if a[-1] == 0 and k % 2 == 1 and st["fam"] == "exact" else None)
+                   "trailing-zero-midpoint" if a[-1] == 0 and k % 2 == 1 and st["fam"] == "exact" else
+                   "degenerate-minor-index-selected" if st["fam"] == "degen" and min(a) > 0 and len(set(want_out)) > 1 else None)
             if cat and cat not in sampled and n >= 2 and len(a) >= 3:
                 sampled.add(cat)
                 ck.sample({"family": st["fam"], "n": n, "weights": w, "u0": u0, "spec_idx0": [i - 1 for i in want_out],
@@ -476,6 +495,25 @@ def main():
         cap = 1500 if quick else 6000
         pick = rng.permutation(len(matched_pool))[:cap]
         sys_cases = to_judge + [matched_pool[i] for i in pick]
+
+        # ---- whole families of observed outcomes: TLC evaluates the counting identity of exact unbiasedness
+        # (sum over cells |cell| * copies_j = n w_j) on what the code returned, over the cover of [0,1)
+        cell_cases = []
+        cells_skipped_raised = 0
+        tol_groups = [g for g in groups if g[0] == "tol"]
+        keep_tol = {tol_groups[i] for i in rng.permutation(len(tol_groups))[: (60 if quick else 600)]}
+        for gk in sorted(groups):
+            fam_, n_, a_, Q_ = gk
+            if fam_ == "tol" and gk not in keep_tol:
+                continue
+            if fam_ == "exact" and len(groups[gk]) != 2 * Q_:
+                continue
+            if any(v is None for v in groups[gk].values()):
+                cells_skipped_raised += 1  # the exceptions are reported case by case
+                continue
+            ks = sorted(groups[gk])
+            cell_cases.append((dict(n=n_, a=a_, Q=Q_, ks=tuple(ks), outs=tuple(groups[gk][kk] for kk in ks)),
+                               dict(fam=fam_, n=n_, a=list(a_), Q=Q_, w=group_w[gk]["w"], witness=group_w[gk].get("witness"))))
 
         # ---- IEEE corner cases, outcomes judged on shape only (inputs exist only as doubles)
         struct_cases = []
@@ -612,7 +650,8 @@ def main():
         impl_counterexamples[inv] = {k_: last.get(k_) for k_ in ("fam", "n", "a", "Q", "k", "idx", "err")}
 
     # ---- 5. TLC judges every observed outcome that is not literally the specification's
-    obs = obs_module([c for c, _ in sys_cases], [c for c, _ in struct_cases], [c for c, _ in mult_cases])
+    obs = obs_module([c for c, _ in sys_cases], [c for c, _ in struct_cases], [c for c, _ in mult_cases],
+                     [c for c, _ in cell_cases])
     jres = tlc.run_tlc("ResampleTrace", TRACE_CFG, dump=True, coverage=True, extra_modules={"ResampleObs.tla": obs})
     if jres.status != "ok":
         raise RuntimeError(f"ResampleTrace: {jres.violated} violated (inconsistent trace module)\n{jres.error_trace}")
@@ -620,10 +659,10 @@ def main():
     for st in iter_done_states(jres.dump_path):
         verdicts[(st["kind"], st["c"])] = st["fails"]
     jres.cleanup()
-    expect = len(sys_cases) + len(struct_cases) + len(mult_cases)
+    expect = len(sys_cases) + len(struct_cases) + len(mult_cases) + len(cell_cases)
     if len(verdicts) != expect:
         raise RuntimeError(f"verdicts are not total: {len(verdicts)} of {expect}")
-    for act, lst in (("JudgeSys", sys_cases), ("JudgeStruct", struct_cases), ("MultDraw", mult_cases), ("MultApply", mult_cases)):
+    for act, lst in (("JudgeSys", sys_cases), ("JudgeStruct", struct_cases), ("JudgeCells", cell_cases), ("MultDraw", mult_cases), ("MultApply", mult_cases)):
         if lst and jres.coverage.get(act, (0, 0))[1] == 0:
             raise RuntimeError(f"vacuous judging: action {act} never taken")
 
@@ -636,6 +675,8 @@ def main():
             continue
         if info["k"] == 0:
             where = "offset0"
+        elif info["fam"] == "degen":
+            where = "degenerate-weights"
         elif info["fam"] == "tol":
             where = "tol-sum-below-one" if sum(info["a"]) < info["Q"] else "tol-sum-above-one"
         else:
@@ -646,6 +687,20 @@ def main():
                 f"{[i - 1 for i in info['want']]}; fails {sorted(fails)}")
         ck.violation(key, what, dict(info, w_hex=[float(x).hex() for x in info["w"]], u0_hex=float(info["u0"]).hex(),
                                      fails=sorted(fails)))
+    for ci, (case, info) in enumerate(cell_cases, start=1):
+        fails = verdicts[("cell", ci)]
+        if "coverage" in fails:
+            raise RuntimeError(f"offset cover incomplete for {info}")
+        if not fails:
+            continue
+        wit = info["witness"] or {}
+        key = f"syst:{'degenerate-weights' if info['fam'] == 'degen' else info['fam']}:unbiased"
+        what = (f"systematic_resample(n={info['n']}, w={info['w']}): counting identity sum_cells |cell|*copies_j = n*w_j fails "
+                f"over the {len(case['ks'])} cells of [0,1) (weights {info['a']}/{info['Q']}); e.g. u0={wit.get('u0')!r} -> "
+                f"{[i - 1 for i in wit.get('got', [])]}, specification {[i - 1 for i in wit.get('want', [])]}")
+        rp = dict(info, k=wit.get("k", 0), w_hex=[float(x).hex() for x in info["w"]],
+                  u0_hex=float(wit.get("u0", 0.0)).hex(), fails=sorted(fails))
+        ck.violation(key, what, rp)
     for ci, (case, info) in enumerate(struct_cases, start=1):
         fails = verdicts[("struct", ci)]
         if not fails:
@@ -677,13 +732,16 @@ def main():
     ck.finish({
         "states": res.distinct + jres.distinct,
         "transitions": res.generated + jres.generated,
-        "traces_validated_against_impl": replayed + len(struct_cases) + len(mult_cases),
+        "traces_validated_against_impl": replayed + len(struct_cases) + len(mult_cases) + len(cell_cases),
         "evaluations": replayed + len(struct_cases) + len(mult_cases) + nsyst,
         "distinct_nontrivial": len(nontrivial) + mult_nontrivial,
         "rule": "systematic: distinct replayed (n, w, u0) with a zero weight, some n*w_j non-integer (floor != ceil) or sum(w) != 1; "
                 "multinomial: traces with a zero weight or at least two positive weights",
         "exhaustive": True,
         "systematic_replayed": replayed,
+        "degenerate_family_replayed": degen_replayed,
+        "families_counting_identity_on_observed_outcomes": len(cell_cases),
+        "families_skipped_because_an_offset_raised": cells_skipped_raised,
         "systematic_equal_to_spec": matched_intended,
         "systematic_judged_by_tlc": len(sys_cases),
         "systematic_accepted_other_closure_convention": accepted_other_convention,
@@ -701,12 +759,13 @@ def main():
     })
 
 
-def obs_module(sys_cases, struct_cases, mult_cases):
+def obs_module(sys_cases, struct_cases, mult_cases, cell_cases=()):
     def seq(cases):
         return "<<\n  " + ",\n  ".join(tla.to_tla(c) for c in cases) + "\n>>" if cases else "<<>>"
 
     return ("---- MODULE ResampleObs ----\n\\* generated by checks/c06.py\n"
-            f"SysCases == {seq(sys_cases)}\nStructCases == {seq(struct_cases)}\nMultCases == {seq(mult_cases)}\n====\n")
+            f"SysCases == {seq(sys_cases)}\nStructCases == {seq(struct_cases)}\nMultCases == {seq(mult_cases)}\n"
+            f"CellCases == {seq(list(cell_cases))}\n====\n")
 
 
 core.main_guard(main)
